@@ -39,12 +39,22 @@ def strip_iter(it):
 # ---------------------------------------------------------------------------------------------
 # writer side
 
+def part_iter_total(agg_):
+    """the total point count carried by the part iterator, by role: its only field holding an i32 read from the source"""
+    if not absint.is_agg(agg_):
+        return None
+    c = [v for k, v in agg_[4] if isinstance(v, tuple) and v and v[0] == 'ret']
+    return c[0] if len(c) == 1 else None
+
+
 class WriterLayout:
     def __init__(self, path, F=None):
         self.p = path
         self.F = F
         self.parts_coll = None      # canonical collection term of the parts (its len is written as NumParts)
         self.points_coll = None     # multipoint: collection whose len is written as NumPoints
+        self.len_coll = None
+        self.total_of = None
         self.notes = []
         self.offsets_ok = None
         self.patch_codes = None
@@ -77,11 +87,10 @@ class WriterLayout:
         if v[0] == 'len':
             c = affine.canon_coll(v[1])
             cs = absint.term_str(c)
-            if cs.endswith(('.points',)):
-                self.points_coll = c
-                return 'num_points'
-            self.parts_coll = c
-            return 'num_parts'
+            # NumParts or NumPoints?  decided once the whole record is known (see resolve_len): a shape that also writes a
+            # sum of part lengths counts its parts here; one that does not (multipoint) counts its points
+            self.len_coll = c
+            return 'LEN'
         if v[0] == 'sum':
             base = strip_iter(v[1])
             c = affine.canon_coll(base[1]) if base[0] == 'iter' else base
@@ -166,6 +175,11 @@ class WriterLayout:
                     self.check_prefix_sum(it, outer)
                 if isinstance(b, tuple):
                     raise LayoutError("constant %s written as data" % (b,))
+                if b == 'LEN':
+                    if self.total_of is not None:
+                        self.parts_coll, b = self.len_coll, 'num_parts'
+                    else:
+                        self.points_coll, b = self.len_coll, 'num_points'
                 out.append("%s:%s" % (it['ty'], b))
             else:
                 coll = it['coll']
@@ -398,7 +412,7 @@ class ReaderLayout:
                 elif np_ret is None:
                     np_ret = cls[1]
             if cls[0] == 'partiter':
-                tot = agg_field(cls[1], 'num_points')
+                tot = part_iter_total(cls[1])
                 if tot is not None and tot[0] == 'ret':
                     np_ret = tot
         self.np_ret, self.nparts_ret = np_ret, nparts_ret
